@@ -35,7 +35,8 @@ def main():
             kind = a
         else:
             sel.append(a)
-    diffs = sorted(glob.glob('/verif/.r2/C*_out/*.diff'))
+    rdir = '/verif/.r%s' % os.environ.get('R', '2')
+    diffs = sorted(glob.glob(rdir + '/C*_out/*.diff'))
     if kind:
         diffs = [d for d in diffs if os.path.basename(d).startswith(kind)]
     if sel:
